@@ -21,6 +21,7 @@ type c08Step struct {
 	Sub           *c08Level `json:"sub,omitempty"`    // the evidence is a sublayout
 	Creates       string    `json:"creates"`          // leaf: file created
 	Deletes       string    `json:"deletes"`          // leaf: file deleted ("" none, "*" everything)
+	Plain         bool      `json:"plain,omitempty"`  // sublayout step with >= 2 functionaries: the last one hands in an ordinary link instead
 	Defect        string    `json:"defect,omitempty"` // see c08Defects
 	DefectAt      int       `json:"defect_at"`        // which functionary's evidence carries the defect
 }
@@ -60,6 +61,7 @@ func c08GenLevel(t *rapid.T, depth int, path string, allowSub bool) c08Level {
 		if i == subAt {
 			sub := c08GenLevel(t, depth-1, name+".", depth-1 > 0 && rapid.Bool().Draw(t, "deeper"+name))
 			st.Sub = &sub
+			st.Plain = nf >= 2 && rapid.IntRange(0, 2).Draw(t, "plain"+name) == 0
 		} else {
 			st.Creates = "f-" + name
 			if i > 0 && rapid.IntRange(0, 1).Draw(t, "del"+name) == 0 {
@@ -238,6 +240,14 @@ func (b *c08Builder) buildLevel(lv c08Level, dir string, isRoot bool) hx.MLayout
 			// a sublayout: every functionary delivers the same sublayout, signed by itself, and the
 			// links of the sublayout's steps in <step>.<keyid8>/
 			var afterSub, dissent map[string]string
+			plainIdx := -1
+			if st.Plain && len(st.Functionaries) >= 2 {
+				// mixed evidence: the last listed functionary did the work himself and hands in a link
+				plainIdx = len(st.Functionaries) - 1
+				if st.DefectAt == plainIdx && st.Defect != "sub-disagree" {
+					st.DefectAt = 0 // defects inside a sublayout need a sublayout
+				}
+			}
 			if b.c.CertSub && isRoot && !b.firstSub && b.certs != nil {
 				// one more functionary, authorised by certificate constraint instead of a listed key
 				st.Functionaries = append(append([]string{}, st.Functionaries...), "pki:leaf1")
@@ -249,6 +259,9 @@ func (b *c08Builder) buildLevel(lv c08Level, dir string, isRoot bool) hx.MLayout
 				b.usedPKI = true
 			}
 			for fi, f := range st.Functionaries {
+				if fi == plainIdx {
+					continue
+				}
 				kid := b.funcKeyID(f)
 				subDir := dir + st.Name + "." + kid[:8] + "/"
 				b.tree = copyFiles(before)
@@ -311,6 +324,21 @@ func (b *c08Builder) buildLevel(lv c08Level, dir string, isRoot bool) hx.MLayout
 					}
 				}
 				b.links = append(b.links, file)
+			}
+			if afterSub == nil && dissent != nil {
+				// the only sublayout of the step is the "dissenting" one: it defines what was built
+				afterSub, dissent = dissent, nil
+			}
+			if plainIdx >= 0 {
+				f := st.Functionaries[plainIdx]
+				prods := hx.ArtifactsOf(afterSub)
+				if st.Defect == "sub-disagree" && st.DefectAt == plainIdx {
+					prods = hx.ArtifactsOf(afterSub)
+					prods["built-differently.bin"] = map[string]string{"sha256": "d155e47"}
+					b.defects = append(b.defects, "sub-disagree@"+st.Name)
+				}
+				link := hx.MLink{Type: "link", Name: st.Name, Materials: hx.ArtifactsOf(before), Products: prods, ByProducts: hx.MObj{}, Command: []string{}, Environment: hx.MObj{}}
+				b.links = append(b.links, hx.WMetaFile{Name: dir + hx.LinkFileName(st.Name, b.funcKeyID(f)), Wrapper: b.c.Wrapper, Meta: hx.MMeta{Link: &link}, Sigs: []hx.WSig{{Key: f}}})
 			}
 			if dissent != nil && !sameFiles(dissent, afterSub) {
 				// (when the differing file never leaves the sublayout the summaries agree: no defect)
